@@ -1033,6 +1033,7 @@ func c13Surroundings(c *Check) {
 	c13FQDNKeepsEncoding(c, "R10")
 	c13NoFrozenClock(c, "R11", []string{"internal/target/remote", "framework/dns"})
 	c13NotFoundIsNXDomainOnly(c, "R12")
+	c13PreparedInTheSameAttempt(c, "R13")
 	c.Rule("R5c", "extended resolver: an AuthenticatedData flag read inside a loop over the answers of a response belongs to that same response", 2)
 	pk := p.Pkg("framework/dns")
 	if pk == nil {
